@@ -270,13 +270,14 @@ def find (lookup : Bytes → DirSpec) (pattern : Bytes) (st : PadStyle) : Except
   match Seq.parse st pattern with
   | .error _ => .ok none
   | .ok fs =>
-    match lookup fs.dir with
+    match lookup (openDir fs.dir) with
     | none => .error .io
     | some entries =>
       match scanT { single := false, hidden := false, style := .hash4 } fs entries [] with
       | .error e => .error e
       | .ok bs =>
-        match bucketsOut .hash4 (rootOf fs.dir) bs with
+        -- (the results get the template's own directory, which may be empty)
+        match bucketsOut .hash4 fs.dir bs with
         | .error e => .error e
         | .ok seqs =>
           .ok ((seqs.find? fun s => s.base = fs.base ∧ s.ext = fs.ext).map fun s => s.setPaddingStyle st)
